@@ -323,3 +323,51 @@ pub fn hunt_noninv(n: usize, first: u64, count: u64) {
         }
     });
 }
+
+/// `fvh hunt-root0 <n> <first> <count>`: seeds in which a candidate examined before the accepted
+/// one has an f that vanishes at exactly one root of X^n+1 mod q, namely the one in the first or
+/// the last slot of the library's transform order, and that would otherwise have been accepted
+/// (range, Gram-Schmidt norm, solvable with 8-bit F, G): the invertibility test is the only thing
+/// between that candidate and the key. About one seed in 6000.
+pub fn hunt_root0(n: usize, first: u64, count: u64) {
+    use falcon_rust::verif_hooks::keygen_parts as kp;
+    use rand::SeedableRng;
+    let lim = (1i64 << (params(n).fg_bits - 1)) - 1;
+    let next = std::sync::atomic::AtomicU64::new(0);
+    std::thread::scope(|sc| {
+        for _ in 0..16 {
+            sc.spawn(|| loop {
+                let i = next.fetch_add(1, std::sync::atomic::Ordering::Relaxed);
+                if i >= count {
+                    break;
+                }
+                let seed = crate::util::seed32(0xC04_2000_0000 + first + i);
+                let mut rng = rand::rngs::StdRng::from_seed(seed);
+                for cand in 0..60 {
+                    let f = kp::gen_poly(n, &mut rng);
+                    let g = kp::gen_poly(n, &mut rng);
+                    if f.iter().chain(g.iter()).any(|x| (*x as i64).abs() > lim) {
+                        continue;
+                    }
+                    let canon: Vec<i16> = f.iter().map(|&x| zq::modq(x as i64) as i16).collect();
+                    let t = falcon_rust::verif_hooks::ntt(&canon);
+                    let zeros: Vec<usize> = (0..n).filter(|&k| t[k] == 0).collect();
+                    let gs_ok = kp::gram_schmidt_norm_squared(&f, &g) <= 1.3689 * 12289.0;
+                    if !zeros.is_empty() {
+                        if zeros.len() == 1 && (zeros[0] == 0 || zeros[0] == n - 1) && gs_ok {
+                            if let Some((cf, cg)) = kp::ntru_solve(&f, &g) {
+                                if cf.iter().chain(cg.iter()).all(|x| x.abs() <= 127) {
+                                    println!("{} {} candidate={} slot={}", n, crate::util::hex(&seed), cand, zeros[0]);
+                                }
+                            }
+                        }
+                        continue;
+                    }
+                    if gs_ok {
+                        break; // the generator goes on to solve here; later candidates are rarely reached
+                    }
+                }
+            });
+        }
+    });
+}
